@@ -452,7 +452,14 @@ impl Check for C08 {
             // property) or report an error, but it cannot come back with a number
             let a = 10_000_000_000_000_000u128 + rng.below(80_000_000_000_000_000) as u128;
             let b = 8_000_000_000_000_000u128 + rng.below(1_000_000_000_000_000) as u128;
-            let text = if rng.chance(1, 2) { format!("({} USD * {})", a, b) } else { format!("({} * {} USD)", b, a) };
+            let big = |rng: &mut Rng| 40_000_000_000_000_000_000_000_000_000u128 + rng.below(1_000_000_000) as u128 * 30_000_000_000_000_000_000u128;
+            let text = match rng.below(4) {
+                0 => format!("({} USD * {})", a, b),
+                1 => format!("({} * {} USD)", b, a),
+                // two amounts that fit, whose sum or difference does not
+                2 => format!("({} USD + {} USD)", big(&mut rng), big(&mut rng)),
+                _ => format!("(-{} USD - {} USD)", big(&mut rng), big(&mut rng)),
+            };
             rec.op("Ledger::eval (product beyond the decimal range)", &text);
             rec.nontrivial(&text);
             let files = vec![(ops::ROOT.to_string(), DECLS.to_string())];
@@ -487,7 +494,7 @@ impl Check for C08 {
              leaves over 17 values x {{bare, USD, EUR, JPY}}, literals with their own minus sign, operators rendered ` op `, `op`, ` op`, `op ` at random. \
              Each expression is used as Ledger::eval argument, posting amount (sibling must receive the negation), cost `@`/`@@` on 10 AAPL (sibling must \
              receive -(10*rate) / -total), balance assertion (true on its value, false one unit off), lot price (plain amounts only), and a sample through \
-             `okane primitive eval`. One case in 400 is a tiny non-zero bare number (must be rejected where an amount is required), one in 400 a product beyond the decimal range (must not come back with a value). Oracle: harness/src/model/expr.rs (exact rationals, left fold, commodity typing; three-valued). Values are compared \
+             `okane primitive eval`. One case in 400 is a tiny non-zero bare number (must be rejected where an amount is required), one in 400 a product, sum or difference beyond the decimal range (must not come back with a value). Oracle: harness/src/model/expr.rs (exact rationals, left fold, commodity typing; three-valued). Values are compared \
              exactly unless an intermediate result is not representable as a 96-bit/28-place decimal (then within sixteen times the error bound the model derives for a 28-place decimal evaluator, plus 1e-27 relative). Non-trivial = expression with a \
              specified outcome; distinct by text.",
             n = expr::N_EXHAUSTIVE
